@@ -13,7 +13,8 @@ CONSTANTS N, Part, Sizes
 
 Wild == <<"a", "\"a b\"", "select", "from", "where", "'s'", "'s", "'\\q'", "\"", "1", "9223372036854775808",
           "99999999999999999999", "1.5", "1s", "1x", "99999999999999999999w", "true", "/r/", "/", "*", "+", "-", "=", "=~", "!",
-          "and", "or", "(", ")", ",", ";", ".", "..", ":", "::", "$p", "$", "$select", "/* c */", "/* c", "-- c\n", "#", "é", "\n", "\r\n">>
+          "and", "or", "(", ")", ",", ";", ".", "..", ":", "::", "$p", "$", "$select", "/* c */", "/* c", "-- c\n", "#", "é", "\n", "\r\n",
+          "''", "\"\"", "//", "\r", "0", "0s", "-1">>
 WildSet == {Wild[i] : i \in 1..Len(Wild)}
 
 Bindings == {"none", "empty", "str", "str_kw", "str_inject", "float", "float_huge", "int", "int_min", "bool_t", "bool_f",
@@ -106,12 +107,24 @@ MutStep == /\ Part = "mut" /\ ~done
            /\ \A k \in 1..Len(TBase) : \A m \in Muts(TBase[k]) : Emit([part |-> "mut", toks |-> ToksG(m, "T"), bind |-> "none", base |-> 100 + k])
            /\ done' = TRUE /\ UNCHANGED seq
 
+\* ---- part "mutws": the structural mutations (no replacements) of every base statement once more with every gap written
+\* as a line break of each kind or a tab: errors on later lines, positions after CR / CRLF / LF
+GapTexts == {"\n", "\r", "\r\n", "\t", "\n\n", " \r "}
+MutsNoRepl(s) == {s} \cup {Del(s, i) : i \in 1..Len(s)} \cup {Dup(s, i) : i \in 1..Len(s)} \cup {Swap(s, i) : i \in 1..Len(s)} \cup {Trunc(s, i) : i \in 1..Len(s)}
+ToksW(s, w) == [j \in 1..Len(s) |-> [t |-> "p", s |-> s[j], g |-> "L", w |-> w]]
+MutWsStep == /\ Part = "mutws" /\ ~done
+             /\ \A k \in 1..Len(Base) : \A m \in MutsNoRepl(Base[k]) : \A w \in GapTexts :
+                  Emit([part |-> "mut", toks |-> ToksW(m, w), bind |-> (IF HasBP(m) THEN "str" ELSE "none"), base |-> k])
+             /\ \A k \in 1..Len(TBase) : \A m \in MutsNoRepl(TBase[k]) : \A w \in GapTexts :
+                  Emit([part |-> "mut", toks |-> ToksG([j \in 1..Len(m) |-> IF m[j] = " " THEN w ELSE m[j]], "T"), bind |-> "none", base |-> 100 + k])
+             /\ done' = TRUE /\ UNCHANGED seq
+
 \* ---- part "grow"
 GrowStep == /\ Part = "grow" /\ ~done
             /\ \A f \in 1..Len(Families) : \A z \in Sizes :
                  Emit([part |-> "grow", family |-> Families[f], size |-> z])
             /\ done' = TRUE /\ UNCHANGED seq
 
-Next == SeqStep \/ MutStep \/ GrowStep
+Next == SeqStep \/ MutStep \/ MutWsStep \/ GrowStep
 Spec == Init /\ [][Next]_vars
 =============================================================================
